@@ -443,6 +443,50 @@ fn run_crs(c: &mut CRS, x: F, y: F, z: F) -> Result<Vec<u64>, String> {
     Ok(vec![b(v.x()), b(v.y()), b(v.z())])
 }
 
+thread_local! {
+    /// The caller's argument buffers. A real caller edits its buffer in place, or drops it and
+    /// builds the next one in the block the allocator just got back: consecutive calls then see
+    /// DIFFERENT contents at the SAME address. A harness that keeps every argument alive in its
+    /// pool never produces that (seeded change c13-ak: a memo keyed by slice address, length,
+    /// first and last element), so slice and string arguments are handed over in one recycled
+    /// buffer per simulated thread.
+    static ARG_CELLS: std::cell::RefCell<Vec<u64>> = std::cell::RefCell::new(Vec::with_capacity(1 << 17));
+    static ARG_STR: std::cell::RefCell<String> = std::cell::RefCell::new(String::with_capacity(256));
+}
+
+fn with_cells<R>(cells: &[u64], f: impl FnOnce(&[u64]) -> R) -> R {
+    let mut f = Some(f);
+    let r = ARG_CELLS.try_with(|buf| match buf.try_borrow_mut() {
+        Ok(mut buf) => {
+            buf.clear();
+            buf.extend_from_slice(cells);
+            Some((f.take().unwrap())(&buf[..]))
+        }
+        Err(_) => None,
+    });
+    match r {
+        Ok(Some(r)) => r,
+        // thread-local already destroyed (calls from a destructor) or re-entered: plain slice
+        _ => (f.take().unwrap())(cells),
+    }
+}
+
+fn with_str<R>(text: &str, f: impl FnOnce(&str) -> R) -> R {
+    let mut f = Some(f);
+    let r = ARG_STR.try_with(|buf| match buf.try_borrow_mut() {
+        Ok(mut buf) => {
+            buf.clear();
+            buf.push_str(text);
+            Some((f.take().unwrap())(buf.as_str()))
+        }
+        Err(_) => None,
+    });
+    match r {
+        Ok(Some(r)) => r,
+        _ => (f.take().unwrap())(text),
+    }
+}
+
 fn exec_inner(op: &Op, env: &Env) -> Result<Vec<u64>, String> {
     match op {
         Op::LonLatToCell { lon, lat, res } => ok1(a5::lonlat_to_cell(LonLat::new(lon.v(), lat.v()), *res)?),
@@ -459,11 +503,11 @@ fn exec_inner(op: &Op, env: &Env) -> Result<Vec<u64>, String> {
         Op::CellToParent { cell, res } => ok1(a5::cell_to_parent(*cell, *res)?),
         Op::GetRes0Cells => a5::get_res0_cells(),
         Op::GetResolution { cell } => ok1(a5::get_resolution(*cell) as i64 as u64),
-        Op::Compact { cells } => a5::compact(cells),
-        Op::Uncompact { cells, res } => a5::uncompact(cells, *res),
+        Op::Compact { cells } => with_cells(cells, |c| a5::compact(c)),
+        Op::Uncompact { cells, res } => with_cells(cells, |c| a5::uncompact(c, *res)),
         Op::CellArea { res } => ok1(b(a5::cell_area(*res))),
         Op::GetNumCells { res } => ok1(a5::get_num_cells(*res)),
-        Op::HexToU64 { s } => ok1(a5::hex_to_u64(s)?),
+        Op::HexToU64 { s } => ok1(with_str(s, |t| a5::hex_to_u64(t))?),
         Op::U64ToHex { v } => Ok(a5::u64_to_hex(*v).bytes().map(|c| c as u64).collect()),
         Op::Serialize { origin, segment, s, res } => {
             ok1(a5::core::serialization::serialize(&cell_of(*origin, *segment, *s, *res))?)
